@@ -519,7 +519,7 @@ class C07(Prop):
         # the text never carries a derived IV: every IV= attribute belongs to an explicit IV
         ok_text = text is not None and all("IV=0x" in l for l in text.split("\n") if ",IV=" in l) and \
             "InitializationVector" not in text
-        explicit_in_dump = len(set(re.findall(r"\(iv \(aes \d+\)\)", unparse(first_dump(node)))))
+        explicit_in_dump = len(set(re.findall(r"\(iv \(aes \d+\)\)", " ".join(unparse(field(s, "keys")) for s in segs))))
         ok_text = ok_text and (text.count(",IV=") >= (1 if explicit_in_dump else 0))
         ok = ok_nums and ok_iv and ok_text
         return {"agree": agree, "ok": ok, "nontrivial": len(segs) > 1,
@@ -568,7 +568,7 @@ class C08(Prop):
         exp = resolve_ranges(chain)
         if exp is not None and any(e is not None and e[1] > 2 ** 64 - 1 for e in exp):
             exp = "overflow"
-        return mk(idp, n, "media", hx("\n".join(lines) + "\n"), exp=exp, maprange=maprange, n=len(chain))
+        return mk(idp, n, "media", hx("\n".join(lines) + "\n"), exp=exp, maprange=maprange, nlen=len(chain))
 
     def cases(self, tier, seed):
         g = gen.G(seed * 1000003 + 8)
